@@ -260,7 +260,8 @@ template <class TM, class SM> struct Harness {
         if (!r.valid) { fail("selfcheck-correct-functors", fmt("reports failure (error norm %.3g, eps %g tol %g) for correct gradients, three-cost=%d", r.error_norm, eps, tol, three)); return; }
         if (r.analytical.size() != n || !bits_equal(r.analytical.data(), ga.data(), n)) { fail("selfcheck-analytical", "returned analytical gradient is not evaluate()'s gradient at x"); return; }
         Eigen::VectorXd num(n), dg; for (int i = 0; i < n; ++i) { Eigen::VectorXd y = x; WS w; y(i) = x(i) + eps; double cp = three ? opt.evaluate(y, dg, tc, wc, rc, &w) : opt.evaluate(y, dg, tc, rc, &w); y(i) = x(i) - eps; double cm = three ? opt.evaluate(y, dg, tc, wc, rc, &w) : opt.evaluate(y, dg, tc, rc, &w); num(i) = (cp - cm) / (2 * eps); }
-        if (r.numerical.size() != n || !bits_equal(r.numerical.data(), num.data(), n)) { fail("selfcheck-numerical", "returned numerical gradient is not the central difference (c+ - c-)/(2 eps) of the optimizer's own cost"); return; }
+        { bool same = r.numerical.size() == n; for (int i = 0; same && i < n; ++i) same = std::fabs(r.numerical(i) - num(i)) <= 1e-15 * std::fabs(num(i));   // within 4 ulp: (c+ - c-) * (0.5 / eps) is as good a central difference as (c+ - c-) / (2 eps)
+          if (!same) { fail("selfcheck-numerical", "returned numerical gradient is not the central difference (c+ - c-)/(2 eps) of the optimizer's own cost"); return; } }
         double en = (ga - num).norm(), gn = ga.norm();
         if (std::fabs(r.error_norm - en) > 1e-12 * (en + 1e-300) || std::fabs(r.rel_error - (gn > 1e-9 ? en / gn : en)) > 1e-12 * (r.rel_error + 1e-300)) { fail("selfcheck-norms", fmt("error_norm %.17g / rel_error %.17g do not follow their definitions (%.17g)", r.error_norm, r.rel_error, en)); return; }
         c.st.obs("C19_error_norm_over_tol(correct functors)", r.error_norm / tol);
